@@ -394,6 +394,7 @@ def decide(prop, tier, seed, mod, cases, agg, crashes, timed_out, t0, findings, 
         'known_findings_observed': [{'key': k, 'occurrences': len(l)} for k, l in known_hit],
         'cross_property_observations': dict(cross),
         'case_watchdog_timeouts': len(timeouts),
+        'slowest_cases_s': sorted([(round(o.get('t', 0), 2), cases[i].get('gen'), str(cases[i].get('ops') or cases[i].get('op') or cases[i].get('kind') or '')) for i, o in agg.done.items()], reverse=True)[:5],
         'verdict': 'violated' if new_viol else ('inconclusive' if reasons else 'held-on-observed'),
         'inconclusive_reasons': reasons,
     }
